@@ -1,0 +1,14 @@
+//go:build verif
+
+package nclient6
+
+// VerifHook, when set, is called at the scheduling points of send, cancel and
+// receiveLoop so that a verification harness can force a particular
+// interleaving.  Only built with the "verif" tag.
+var VerifHook func(point string)
+
+func vhook(point string) {
+	if h := VerifHook; h != nil {
+		h(point)
+	}
+}
